@@ -370,7 +370,18 @@ func TestProp(t *testing.T) {
 				} else {
 					src = prevOut
 				}
-				if len(src) > 2 {
+				if wantExists && rapid.IntRange(0, 3).Draw(rt, "extension") == 0 {
+					// the old file starts with exactly what has to be written now and goes on: the output of an earlier
+					// version with one more call whose function came last, complete or cut off inside that function
+					extra := "\n// deriveStale was generated for a call that is gone.\nfunc deriveStale(this, that []int) bool {\n\tif this == nil || that == nil {\n\t\treturn this == nil && that == nil\n\t}\n\treturn len(this) == len(that)\n}\n"
+					k := len(extra)
+					if rapid.Bool().Draw(rt, "extension-cut") {
+						k = rapid.IntRange(1, len(extra)-1).Draw(rt, "extension-k")
+					}
+					os.WriteFile(dpath, append(append([]byte{}, want...), extra[:k]...), 0o644)
+					corrupt = fmt.Sprintf("derived.gen.go := the new output followed by %d of %d bytes of a function for a removed call", k, len(extra))
+					desc += "; " + corrupt
+				} else if len(src) > 2 {
 					pts := cutPoints(src)
 					var names []string
 					for n := range pts {
